@@ -85,6 +85,7 @@ class Engine:
         self.specfns = {}
         self.inline_depth = 0
         self._stringy_cache = {}
+        self._ambiguous_fields = None
         self.cur_state = None          # state of the expression being evaluated (for heap-dependent truthiness)
         self.binder_depth = 0          # >0 while evaluating under a bound variable (comprehension / quantifier)
         self.facts = []                # valid ground instances of builtin axioms met on the way (shared by all paths)
@@ -344,17 +345,38 @@ class Engine:
                 return True
         return False
 
+    def hkey(self, fname, ty):
+        """heap arrays are per field name; when unrelated classes declare the same field name with different
+        types (FunctionDef.args / arguments.args) each type gets its own array"""
+        amb = self._ambiguous_fields
+        if amb is None:
+            seen = {}
+            amb = set()
+            for sh in self.reg.shapes.values():
+                for f, t in sh.fields.items():
+                    if f in seen and seen[f] != t:
+                        amb.add(f)
+                    seen.setdefault(f, t)
+            self._ambiguous_fields = amb
+        if fname in amb:
+            return f'{fname}@{ty.key}'
+        return fname
+
     def heap_arr(self, st, fname, ty):
-        if fname not in st.heap:
-            st.heap[fname] = z3.Const('H_' + fname, z3.ArraySort(RefSort(), ty.sort()))
-        return st.heap[fname]
+        k = self.hkey(fname, ty)
+        if k not in st.heap:
+            st.heap[k] = z3.Const('H_' + k, z3.ArraySort(RefSort(), ty.sort()))
+        return st.heap[k]
 
     def read_field(self, st, ref_v, fname):
         ty = self.field_ty(ref_v.ty.cls, fname)
         if ty is None:
             raise Unsupported(f'field {ref_v.ty.cls}.{fname} not declared in shapes')
         arr = self.heap_arr(st, fname, ty)
-        return V(ty, z3.Select(arr, ref_v.t))
+        out = V(ty, z3.Select(arr, ref_v.t))
+        if isinstance(ty, TRef) and not ty.nullable and not self.spec_mode:
+            st.assume(out.t != null())          # type invariant of a Ref[C] field
+        return out
 
     def write_field(self, st, ref_v, fname, val):
         ty = self.field_ty(ref_v.ty.cls, fname)
@@ -362,7 +384,7 @@ class Engine:
             raise Unsupported(f'field {ref_v.ty.cls}.{fname} not declared in shapes')
         val = self.coerce(val, ty, st)
         arr = self.heap_arr(st, fname, ty)
-        st.heap[fname] = z3.Store(arr, ref_v.t, val.t)
+        st.heap[self.hkey(fname, ty)] = z3.Store(arr, ref_v.t, val.t)
 
     # ---------------------------------------------------------------- coercions
     def coerce(self, v, ty, st=None):
@@ -382,11 +404,17 @@ class Engine:
                 return V(ty, null())
             if isinstance(v.ty, TRef):
                 return V(ty, v.t)
-        if isinstance(v.ty, TOpt) and v.ty.inner == ty:
+        if isinstance(v.ty, TOpt) and (v.ty.inner == ty or (isinstance(v.ty.inner, TRef) and isinstance(ty, TRef))):
             # unwrap: only when the path condition proves the value is not None
             if st is not None and not self.spec_mode and not self.entails(st, v.ty.is_some(v.t)):
                 raise Unsupported(f'Optional value used as {ty} on a path where it may be None')
-            return V(ty, v.ty.val(v.t))
+            inner = V(v.ty.inner, v.ty.val(v.t))
+            if inner.ty == ty:
+                return inner
+            if inner.ty.nullable and not ty.nullable and st is not None and not self.spec_mode \
+                    and not self.entails(st, inner.t != null()):
+                raise Unsupported(f'possibly-None reference used as {ty}')
+            return V(ty, inner.t)
         if isinstance(ty, TSeq) and isinstance(v.ty, TSeq) and v.ty.elem is NONE:
             return V(ty, z3.Empty(ty.sort()))
         if isinstance(ty, TSeq) and isinstance(v.ty, TTuple) and all(e == ty.elem for e in v.ty.elems):
@@ -451,6 +479,9 @@ class Engine:
             a, b = b, a
         if b.ty is NONE:
             if isinstance(a.ty, TOpt):
+                if isinstance(a.ty.inner, TRef) and a.ty.inner.nullable:
+                    # dict.get(k) on a map whose values may be None: absent, or present with value None
+                    return z3.Or(a.ty.is_none(a.t), a.ty.val(a.t) == null())
                 return a.ty.is_none(a.t)
             if isinstance(a.ty, TRef):
                 return a.t == null() if a.ty.nullable else z3.BoolVal(False)
